@@ -31,6 +31,7 @@ Definition ctxs_ok (d : ctxd) : Prop := NoDup d /\ In None d /\ exists c, In (So
 
 Record MemInv (m : mem) : Prop := {
   mi_idx : coherent (m_spo m) (m_pos m) (m_osp m);
+  mi_tc_leaf : forall t d, pd_get triple_eqb t (m_tc m) = Some d -> leaf (m_spo m) t = true;
   mi_def : forall t, leaf (m_spo m) t = true -> m_def m <> None;
   mi_def_nd : forall d, m_def m = Some d -> NoDup d;
   mi_ctxs : forall t, leaf (m_spo m) t = true -> ctxs_ok (mem_ctxs m t);
@@ -38,7 +39,7 @@ Record MemInv (m : mem) : Prop := {
   mi_ct : forall k t, In t (pd_getd ckey_eqb k (m_ct m)) <-> leaf (m_spo m) t = true /\ In k (mem_ctxs m t)
 }.
 
-Arguments mi_idx {m}. Arguments mi_def {m}. Arguments mi_def_nd {m}. Arguments mi_ctxs {m}.
+Arguments mi_idx {m}. Arguments mi_tc_leaf {m}. Arguments mi_def {m}. Arguments mi_def_nd {m}. Arguments mi_ctxs {m}.
 Arguments mi_ct_sets {m}. Arguments mi_ct {m}.
 
 Lemma mem_leaf_eq m t : mem_leaf m t = leaf (m_spo m) t.
@@ -48,12 +49,28 @@ Lemma MemInv_empty : MemInv mem_empty.
 Proof.
   constructor; simpl.
   - apply coherent_nil.
+  - discriminate.
   - intros [[s p] o]. discriminate.
   - discriminate.
   - intros [[s p] o]. discriminate.
   - intros [k|] l; simpl; [discriminate|]. intros [= <-]. constructor.
   - intros k [[s p] o]. split; [|intros [H _]; discriminate].
     unfold pd_getd. simpl. destruct (ckey_eqb k None); simpl; tauto.
+Qed.
+
+(* the repaired __triple_has_context agrees with tripleContexts.get(t, default) on stored triples *)
+Lemma has_ctx_leaf m t k :
+  leaf (m_spo m) t = true -> mem_has_ctx m t k = memb ckey_eqb k (mem_ctxs m t).
+Proof.
+  intros Hl. unfold mem_has_ctx, mem_ctxs. rewrite mem_leaf_eq, Hl.
+  destruct (pd_get triple_eqb t (m_tc m)); reflexivity.
+Qed.
+
+Lemma holds_iff m c t : mem_holds m c t = true <-> leaf (m_spo m) t = true /\ In (Some c) (mem_ctxs m t).
+Proof.
+  unfold mem_holds. rewrite andb_true_iff, mem_leaf_eq. split; intros [H1 H2]; split; auto.
+  - rewrite has_ctx_leaf in H2 by auto. now apply kmemb_In.
+  - rewrite has_ctx_leaf by auto. now apply kmemb_In.
 Qed.
 
 (* ---------- the per-triple context entry after a store/compress step *)
@@ -124,7 +141,8 @@ Lemma add_ctx_facts m t0 c :
   (forall t, t <> t0 -> leaf (m_spo m) t = true -> mem_ctxs m1 t = mem_ctxs m t) /\
   (forall k l, pd_get ckey_eqb k (m_ct m1) = Some l -> NoDup l) /\
   (forall k t, In t (pd_getd ckey_eqb k (m_ct m1)) <->
-               (t = t0 /\ (k = Some c \/ k = None)) \/ In t (pd_getd ckey_eqb k (m_ct m))).
+               (t = t0 /\ (k = Some c \/ k = None)) \/ In t (pd_getd ckey_eqb k (m_ct m))) /\
+  (forall t d, pd_get triple_eqb t (m_tc m1) = Some d -> t = t0 \/ pd_get triple_eqb t (m_tc m) = Some d).
 Proof.
   intros Hi ex m1.
   set (tcx := if ex then sadd ckey_eqb None (sadd ckey_eqb (Some c) (mem_ctxs m t0)) else [Some c; None]).
@@ -150,13 +168,14 @@ Proof.
     - rewrite (pd_get_del Ts), (pd_get_set Ts). destruct (triple_eqb t t0); auto.
     - rewrite (pd_get_set Ts). destruct (triple_eqb t t0); auto. }
   destruct (ctxs_touch m m1 t0 tcx Htc Hdd Htcx_nd) as [[Hnd Hin] Hoth].
-  split; [|split; [|split; [|split; [|split; [|split]]]]]; auto.
+  split; [|split; [|split; [|split; [|split; [|split; [|split]]]]]]; auto.
   - rewrite Hdef1. unfold def'. destruct (m_def m); discriminate.
   - intros k. rewrite Hin. apply Htcx_in.
   - intros t Hne Hl. apply Hoth; auto. rewrite Hdef1. unfold def'.
     pose proof (mi_def Hi t Hl). destruct (m_def m); congruence.
   - unfold m1, mem_add_ctx. cbn [m_ct]. apply ct_add_sets, ct_add_sets, (mi_ct_sets Hi).
   - intros k t. unfold m1, mem_add_ctx. cbn [m_ct]. rewrite !ct_add_In. intuition.
+  - intros t d. rewrite Htc. destruct (Ts t t0) as [->|]; auto.
 Qed.
 
 Lemma bool_iff (a b : bool) : (a = true <-> b = true) -> a = b.
@@ -168,7 +187,7 @@ Theorem mem_add_ok m c t0 :
   MemInv (mem_add m c t0) /\
   forall c' t, mem_holds (mem_add m c t0) c' t = (N.eqb c' c && triple_eqb t t0) || mem_holds m c' t.
 Proof.
-  intros Hi. destruct (add_ctx_facts m t0 c Hi) as (F1 & F2 & F3 & F4 & F5 & F6 & F7).
+  intros Hi. destruct (add_ctx_facts m t0 c Hi) as (F1 & F2 & F3 & F4 & F5 & F6 & F7 & F8).
   destruct t0 as [[s p] o]. set (t0 := (s, p, o)) in *.
   set (m' := mem_add m c t0).
   assert (Hleaf : forall t, leaf (m_spo m') t = triple_eqb t t0 || leaf (m_spo m) t).
@@ -179,6 +198,8 @@ Proof.
   assert (Hctxs : forall t, mem_ctxs m' t = mem_ctxs (mem_add_ctx m t0 (leaf (m_spo m) t0) c) t).
   { intros t. unfold m', mem_add, t0. cbn [leaf]. destruct (idx_has s p o (m_spo m)); reflexivity. }
   assert (Hct : m_ct m' = m_ct (mem_add_ctx m t0 (leaf (m_spo m) t0) c)).
+  { unfold m', mem_add, t0. cbn [leaf]. destruct (idx_has s p o (m_spo m)); reflexivity. }
+  assert (Htc' : m_tc m' = m_tc (mem_add_ctx m t0 (leaf (m_spo m) t0) c)).
   { unfold m', mem_add, t0. cbn [leaf]. destruct (idx_has s p o (m_spo m)); reflexivity. }
   assert (Hdef : m_def m' = m_def (mem_add_ctx m t0 (leaf (m_spo m) t0) c)).
   { unfold m', mem_add, t0. cbn [leaf]. destruct (idx_has s p o (m_spo m)); reflexivity. }
@@ -192,6 +213,9 @@ Proof.
     + unfold m', mem_add, t0. destruct (idx_has s p o (m_spo m)); cbn [m_spo m_pos m_osp mem_add_ctx].
       * apply (mi_idx Hi).
       * apply coherent_add, (mi_idx Hi).
+    + intros t d. rewrite Htc', Hleaf. intros H. destruct (F8 t d H) as [->|H'].
+      * now rewrite teqb_refl.
+      * rewrite (mi_tc_leaf Hi t d H'). apply orb_true_r.
     + intros t _. now rewrite Hdef.
     + intros d. rewrite Hdef. apply F2.
     + intros t. rewrite Hleaf. destruct (Ts t t0) as [->|Hne]; simpl.
@@ -203,8 +227,8 @@ Proof.
       * split.
         -- intros [[H _]|[Hl Hk]]; [congruence|]. split; auto. now rewrite Hc1.
         -- intros [Hl Hk]. right. split; auto. now rewrite <- Hc1.
-  - intros c' t. apply bool_iff. unfold mem_holds, mem_has_ctx.
-    rewrite orb_true_iff, !andb_true_iff, !mem_leaf_eq, !kmemb_In, Hleaf, N.eqb_eq, teqb_eq.
+  - intros c' t. apply bool_iff.
+    rewrite orb_true_iff, andb_true_iff, !holds_iff, Hleaf, N.eqb_eq, teqb_eq.
     destruct (Ts t t0) as [->|Hne]; simpl.
     + rewrite Hc0. split.
       * intros [_ [[= ->]|[H|[Hl Hk]]]]; [auto|discriminate|auto].
@@ -225,7 +249,8 @@ Lemma rem_ctx_facts m t0 k :
   ((forall k l, pd_get ckey_eqb k (m_ct m) = Some l -> NoDup l) ->
    forall k l, pd_get ckey_eqb k (m_ct m1) = Some l -> NoDup l) /\
   (forall k' t, In t (pd_getd ckey_eqb k' (m_ct m1)) <->
-                In t (pd_getd ckey_eqb k' (m_ct m)) /\ ~ (k' = k /\ t = t0)).
+                In t (pd_getd ckey_eqb k' (m_ct m)) /\ ~ (k' = k /\ t = t0)) /\
+  (forall t d, pd_get triple_eqb t (m_tc m1) = Some d -> t = t0 \/ pd_get triple_eqb t (m_tc m) = Some d).
 Proof.
   intros Hdd Hnd m1.
   set (ctxs := srem ckey_eqb k (mem_ctxs m t0)).
@@ -241,11 +266,12 @@ Proof.
   assert (Hdd1 : forall d, m_def m1 = Some d -> NoDup d) by (intros d; rewrite Hdef; apply Hdd).
   destruct (ctxs_touch m m1 t0 ctxs Htc Hdd1 Hc_nd) as [[H1 H2] H3].
   repeat (split; [solve [auto]|]).
-  split; [|split; [|split]].
+  split; [|split; [|split; [|split]]].
   - intros k'. rewrite H2. apply ksrem_In.
   - intros t Hne. apply H3; auto.
   - intros Hs. unfold m1, mem_rem_ctx. cbn [m_ct]. now apply ct_rem_sets.
   - intros k' t. unfold m1, mem_rem_ctx. cbn [m_ct]. apply ct_rem_In.
+  - intros t d. rewrite Htc. destruct (Ts t t0) as [->|]; auto.
 Qed.
 
 Lemma len1_inv {A} (l : list A) x : length l = 1 -> In x l -> l = [x].
@@ -272,8 +298,6 @@ Qed.
 Lemma del_leaf_leaf m t0 t : leaf (m_spo (mem_del_leaf m t0)) t = leaf (m_spo m) t && negb (triple_eqb t t0).
 Proof. destruct t0 as [[s p] o]. unfold mem_del_leaf. cbn [m_spo]. apply leaf_del. Qed.
 
-Lemma holds_iff m c t : mem_holds m c t = true <-> leaf (m_spo m) t = true /\ In (Some c) (mem_ctxs m t).
-Proof. unfold mem_holds, mem_has_ctx. now rewrite andb_true_iff, mem_leaf_eq, kmemb_In. Qed.
 
 (* the loop body of Memory.remove: the graph loses the triple, nothing else changes *)
 Theorem mem_remove1_ok m c t0 :
@@ -283,11 +307,11 @@ Theorem mem_remove1_ok m c t0 :
 Proof.
   intros Hi Hh. pose proof (proj1 (holds_iff m c t0) Hh) as [Hl0 Hc0].
   destruct (mi_ctxs Hi t0 Hl0) as (Hnd0 & Hnone0 & _).
-  assert (Hhc : mem_has_ctx m t0 (Some c) = true) by (apply kmemb_In; exact Hc0).
+  assert (Hhc : memb ckey_eqb (Some c) (mem_ctxs m t0) = true) by (apply kmemb_In; exact Hc0).
   unfold mem_remove1. rewrite Hhc.
   set (m1 := mem_rem_ctx m t0 (Some c)).
-  destruct (rem_ctx_facts m t0 (Some c) (mi_def_nd Hi) Hnd0) as (D1 & S1 & P1 & O1 & N1 & I1 & T1 & Z1 & C1).
-  fold m1 in D1, S1, P1, O1, N1, I1, T1, Z1, C1.
+  destruct (rem_ctx_facts m t0 (Some c) (mi_def_nd Hi) Hnd0) as (D1 & S1 & P1 & O1 & N1 & I1 & T1 & Z1 & C1 & L1).
+  fold m1 in D1, S1, P1, O1, N1, I1, T1, Z1, C1, L1.
   assert (Hnone1 : In None (mem_ctxs m1 t0)) by (apply I1; split; [auto|discriminate]).
   rewrite (proj2 (kmemb_In _ _) Hnone1). cbn [andb].
   destruct (Nat.eqb_spec (length (mem_ctxs m1 t0)) 1) as [Hlen|Hlen].
@@ -295,8 +319,8 @@ Proof.
     pose proof (len1_inv _ _ Hlen Hnone1) as HL1.
     set (m2 := mem_rem_ctx m1 t0 None).
     assert (Hdd1 : forall d, m_def m1 = Some d -> NoDup d) by (intros d; rewrite D1; apply (mi_def_nd Hi)).
-    destruct (rem_ctx_facts m1 t0 None Hdd1 N1) as (D2 & S2 & P2 & O2 & N2 & I2 & T2 & Z2 & C2).
-    fold m2 in D2, S2, P2, O2, N2, I2, T2, Z2, C2.
+    destruct (rem_ctx_facts m1 t0 None Hdd1 N1) as (D2 & S2 & P2 & O2 & N2 & I2 & T2 & Z2 & C2 & L2).
+    fold m2 in D2, S2, P2, O2, N2, I2, T2, Z2, C2, L2.
     assert (HL2 : mem_ctxs m2 t0 = []).
     { apply nil_of_noin. intros k Hk. apply I2 in Hk. destruct Hk as [Hk Hne]. rewrite HL1 in Hk.
       destruct Hk as [<-|[]]. congruence. }
@@ -314,6 +338,10 @@ Proof.
     + constructor.
       * destruct t0 as [[s p] o]. cbn [mem_del_leaf m_spo m_pos m_osp]. rewrite S2, P2, O2, S1, P1, O1.
         apply coherent_del, (mi_idx Hi).
+      * intros t d. rewrite Hleaf. destruct t0 as [[s0 p0] o0]. cbn [mem_del_leaf m_tc].
+        rewrite (pd_get_del Ts). destruct (Ts t (s0, p0, o0)) as [->|Hne]; [discriminate|].
+        intros H. destruct (L2 t d H) as [?|H2']; [congruence|]. destruct (L1 t d H2') as [?|H1']; [congruence|].
+        rewrite (mi_tc_leaf Hi t d H1'). reflexivity.
       * intros t. rewrite Hleaf, Hdf. intros H. apply andb_true_iff in H. apply (mi_def Hi t), H.
       * intros d. rewrite Hdf. apply (mi_def_nd Hi).
       * intros t. rewrite Hleaf. intros H. apply andb_true_iff in H. destruct H as [Hl Hne].
@@ -336,6 +364,7 @@ Proof.
     split.
     + constructor.
       * rewrite S1, P1, O1. apply (mi_idx Hi).
+      * intros t d H. rewrite S1. destruct (L1 t d H) as [->|H1']; [exact Hl0|exact (mi_tc_leaf Hi t d H1')].
       * intros t. rewrite S1, D1. apply (mi_def Hi).
       * intros d. rewrite D1. apply (mi_def_nd Hi).
       * intros t. rewrite S1. intros Hl. destruct (Ts t t0) as [->|Hne].
@@ -380,7 +409,9 @@ Proof.
           forall t, In t (filter (fun t => mem_has_ctx m t (Some c)) (idx_triples (m_spo m) (m_pos m) (m_osp m) p))
                     <-> matches p t = true /\ mem_holds m c t = true).
   { destruct (idx_triples_exact p (mi_idx Hi)) as [Hn Hin]. split; [now apply filter_NoDup|].
-    intros t. rewrite filter_In, Hin, holds_iff. unfold mem_has_ctx. rewrite kmemb_In. tauto. }
+    intros t. rewrite filter_In, Hin, holds_iff. split.
+    - intros [[H1 H2] H3]. rewrite has_ctx_leaf in H3 by auto. apply kmemb_In in H3. auto.
+    - intros [H1 [H2 H3]]. split; auto. rewrite has_ctx_leaf by auto. now apply kmemb_In. }
   destruct p as [[[s|] [pp|]] [o|]]; try exact Hgen.
   cbn [mem_triples]. split.
   - unfold pd_getd. destruct (pd_get ckey_eqb (Some c) (m_ct m)) as [l|] eqn:E; [|constructor].
@@ -405,6 +436,7 @@ Proof.
   split; [|exact Hh].
   constructor; cbn [m_spo m_pos m_osp m_def m_ct m_tc].
   - apply (mi_idx Hi').
+  - apply (mi_tc_leaf Hi').
   - apply (mi_def Hi').
   - apply (mi_def_nd Hi').
   - apply (mi_ctxs Hi').
